@@ -161,6 +161,13 @@ def run(tier, replay):
     if replay:
         with open(replay) as f:
             rp = json.load(f)
+        if not isinstance(rp.get("case"), dict) or "fault" not in rp["case"]:
+            # a violation of the file pass (or of the end-of-input family): the text itself is replayed through both loaders
+            resp = pool.map([{"op": "run", "text": rp["rendered_text"], "budget": 200000}], timeout=40)[0]
+            n = file_pass(rep, d, tier, [({"replay"}, rp["rendered_text"], observed(resp))])
+            print("replay: from text", observed(resp), "file pass", n)
+            return rep.finish({"evaluations": 1, "distinct_nontrivial": 1, "rule": "replay of one text through both loaders", "samples": [],
+                               "states": states, "transitions": trans, "traces_validated_against_impl": 1}, [])
         cases, simcases = [fix_case(rp["case"])], []
         cmd1 = cmd2 = ""
     else:
